@@ -249,6 +249,37 @@ pub fn check(sc: &Scen, obs: &Obs) -> Vec<Violation> {
     out
 }
 
+pub fn tally(sc: &Scen, obs: &Obs) {
+    use std::sync::atomic::Ordering::Relaxed;
+    for (j, spec) in sc.reqs.iter().enumerate() {
+        let r = build(spec.framing, j, spec.leftover);
+        match &obs.outs[j] {
+            ReqOut::SendErr(_) | ReqOut::Head { body: BodyOut::Err { .. }, .. } => {
+                crate::REPORTED_ERRORS.fetch_add(1, Relaxed);
+            }
+            ReqOut::Head { body: BodyOut::Ok(b), .. } if *b == r.body && obs.served[j].delivered >= r.framed_len => {
+                crate::COMPLETE_SUCCESSES.fetch_add(1, Relaxed);
+            }
+            _ => {}
+        }
+        if j > 0 && !sc.concurrent {
+            if let Some(_c) = obs.served[j].conn {
+                if obs.served[j].ordinal > 0 {
+                    crate::REUSES.fetch_add(1, Relaxed);
+                } else {
+                    crate::FRESH_FOR_LATER_REQUEST.fetch_add(1, Relaxed);
+                }
+            }
+        }
+    }
+    if obs.max_open_strict > sc.limit {
+        crate::CLOSING_BEYOND_LIMIT.fetch_add(1, Relaxed);
+    }
+    if obs.stalled {
+        crate::WAITING_FOR_SERVER.fetch_add(1, Relaxed);
+    }
+}
+
 pub fn canonical(sc: &Scen, obs: &Obs) -> String {
     let mut s = format!("{}|conc={}|lim={}|", sc.group, sc.concurrent, sc.limit);
     for (j, spec) in sc.reqs.iter().enumerate() {
